@@ -7,7 +7,7 @@
    is accepted by check_schedule (to_timings_valid); the model's schedule is compared with rex's Timings on every instance (TTMATCH), check_mono is evaluated
    on every instance (CHECKMONO). *)
 From Coq Require Import List Arith ZArith Bool.
-From Rex Require Import CompiledModel WindowSpec WindowPush ScheduleSpec ScheduleCover ToTimings ToTimingsLaws.
+From Rex Require Import CompiledModel WindowSpec WindowPush ScheduleSpec ScheduleCover BufferSufficient ToTimings ToTimingsLaws ToTimingsExtra.
 Open Scope Z_scope.
 
 (* soundness of the extracted validator: an accepted schedule satisfies ValidSchedule (every running slot carries a vertex of its own kind with that vertex's seq, times and window; no vertex twice; predecessor step and every window producer strictly earlier; supervisor step p closes partition p; one slot per kind and generation) *)
@@ -94,4 +94,24 @@ Print Assumptions C07_to_timings_example_valid.
 Theorem C07_to_timings_example_bad : check_schedule (set_slots exI (to_timings exI exT exM')) = false.
 Proof. exact @ex_bad_schedule. Qed.
 Print Assumptions C07_to_timings_example_bad.
+
+(* the remaining well-formedness facts the runner relies on (extra_ok: slot generations in range, the last generation holds supervisor slots only, the supervisor cell of every partition runs, kinds are nodes) follow for the schedule to_timings builds from decidable facts about the partitioner's template (tmpl_ok) and monomorphism (check_mono, sup_covered: a supervisor vertex mapped into every partition) *)
+Theorem C07_to_timings_extra_ok : forall (I : inst) (tmpl : list (nat * nat)) (M : list mentry), check_mono I tmpl M = true -> tmpl_ok I tmpl = true -> sup_covered I M = true -> extra_ok (set_slots I (to_timings I tmpl M)) = true.
+Proof. exact @to_timings_extra_ok. Qed.
+Print Assumptions C07_to_timings_extra_ok.
+
+(* both validators accept the schedule to_timings builds *)
+Theorem C07_to_timings_schedule_and_extra : forall (I : inst) (tmpl : list (nat * nat)) (M : list mentry), check_mono I tmpl M = true -> tmpl_ok I tmpl = true -> sup_covered I M = true -> check_schedule (set_slots I (to_timings I tmpl M)) = true /\ extra_ok (set_slots I (to_timings I tmpl M)) = true.
+Proof. exact @to_timings_schedule_and_extra. Qed.
+Print Assumptions C07_to_timings_schedule_and_extra.
+
+(* non-vacuity: the three hypotheses hold together on the two-node instance *)
+Theorem C07_to_timings_extra_example : check_schedule (set_slots exI (to_timings exI exT exM)) = true /\ extra_ok (set_slots exI (to_timings exI exT exM)) = true.
+Proof. exact @ex_extra_by_theorem. Qed.
+Print Assumptions C07_to_timings_extra_example.
+
+(* check_mono alone does not give extra_ok: with the supervisor vertex of the last partition unmapped check_mono and check_schedule still accept, sup_covered and extra_ok reject *)
+Theorem C07_to_timings_extra_needs_sup_covered : check_mono exI exT exM_nosup = true /\ sup_covered exI exM_nosup = false /\ check_schedule (set_slots exI (to_timings exI exT exM_nosup)) = true /\ extra_ok (set_slots exI (to_timings exI exT exM_nosup)) = false.
+Proof. exact @ex_nosup. Qed.
+Print Assumptions C07_to_timings_extra_needs_sup_covered.
 
